@@ -132,6 +132,18 @@ def lutModeAfter (a : List String) (cur : Refresh) : Refresh :=
 
 def cleanEnv (p : Panel) : Env := { single := p.single }
 
+/-- register commands the driver's own construction programs after its reset pulse (waveform
+    tables, image data and refresh triggers aside): what "initialised since the last hardware
+    reset" means for a reset issued anywhere else (C09) -/
+def initRegCmds (p : Panel) (d : DState) : List UInt8 :=
+  ((blocksOf ((p.prog d .new).getD [])).filterMap fun b => match b with
+    | .c c _ =>
+      if (Spec.lutCmds p.family).contains c ∨ (Spec.imageCmds p.name p.family).contains c ∨
+         (Spec.refreshCmds p.name p.family).contains c then none else some c
+    | _ => none).eraseDups
+
+def showCmds (cs : List UInt8) : String := "+".intercalate (cs.map fun c => hexByte c)
+
 def panelVerdicts (f : Feat) (props : List String) (p : Panel) (sc : Scenario) (opsTok : List (List String))
     (ops : List Op) (traces : List OpTrace) (model : List OpTrace) : Acc := Id.run do
   let want (pr : String) : Bool := props.contains pr
@@ -150,6 +162,9 @@ def panelVerdicts (f : Feat) (props : List String) (p : Panel) (sc : Scenario) (
   let mut probePlanes : List Nat := []
   let mut k := 0
   let mut wHash := H0
+  -- C09 (wave 13): a hardware reset issued by a call other than construction / wake_up that is not
+  -- followed, in that call, by the register commands the driver's own construction programs
+  let mut uninit : Option String := none
   for t in traces do
     let a := opsTok.getD k []
     let op := ops.getD k .wait
@@ -220,7 +235,27 @@ def panelVerdicts (f : Feat) (props : List String) (p : Panel) (sc : Scenario) (
         let refEvs := actsToEvs refActs
         acc := acc.add "C08" (c08Wake p a t.evs refEvs ++ (c11 p a t.evs true).map (· ++ " (wake_up must start with a reset pulse)"))
     -- C09
-    if want "C09" then acc := acc.add "C09" (c09 p a before after)
+    if want "C09" then
+      acc := acc.add "C09" (c09 p a before after)
+      let blocks := opBlocks t.evs
+      let cmdsOf (bs : List Blk) : List UInt8 := bs.filterMap fun b => match b with | .c c _ => some c | _ => none
+      let hasRst := blocks.any fun b => match b with | .rst => true | _ => false
+      -- the commands of this call that follow its last reset pulse (all of them if it has none)
+      let tailCmds := cmdsOf (blocks.reverse.takeWhile fun b => match b with | .rst => false | _ => true).reverse
+      if hasRst ∧ ok then
+        let missing := (initRegCmds p dBefore).filter fun c => !tailCmds.contains c
+        if name == "new" ∨ name == "wake" ∨ Spec.vendorReinit p.name name ∨ missing.isEmpty then uninit := none
+        else uninit := some s!"{name}:missing={showCmds missing}"
+      match uninit with
+      | some why =>
+        -- refresh EVENTS of the simulator (SSD16xx: master activation with the display bit set), and for
+        -- a call that pulses reset itself only if a trigger follows the pulse
+        let nEv := (newRefreshes before after).length
+        let nCmd := (tailCmds.filter fun c => (Spec.refreshCmds p.name p.family).contains c).length
+        let n := if hasRst then min nEv nCmd else nEv
+        if n > 0 then
+          acc := acc.add "C09" [s!"site={site} reason=refresh-after-reset-without-init got=reset-by-{why} want=initialised-since-reset"]
+      | none => pure ()
     -- C17
     lutMode := lutModeAfter a lutMode
     if want "C17" ∧ ok then
